@@ -17,7 +17,7 @@ Section WInd.
   Hypothesis HType : forall s, P (WType s).
   Hypothesis HErr : forall k, P (WErr k).
   Hypothesis HErrV : forall k, P (WErrV k).
-  Hypothesis HPretty : forall a b, P (WPretty a b).
+  Hypothesis HPretty : forall k, P (WPretty k).
   Hypothesis HSeq : forall l, Forall P l -> P (WSeq l).
   Hypothesis HPanic : P WPanic.
 
@@ -25,7 +25,7 @@ Section WInd.
     match w with
     | WKw s => HKw s | WRaw s => HRaw s | WLit s => HLit s | WNum s => HNum s
     | WArg v => HArg v | WBind n => HBind n | WIdent s => HIdent s | WType s => HType s
-    | WErr k => HErr k | WErrV k => HErrV k | WPretty a b => HPretty a b
+    | WErr k => HErr k | WErrV k => HErrV k | WPretty k => HPretty k
     | WSeq l =>
         HSeq l ((fix go (l : list (W V)) : Forall P l :=
                    match l with
@@ -83,7 +83,7 @@ Section Frame.
 
   Lemma run_extends o (w : W V) : forall s s', run o w s = Some s' -> extends s s'.
   Proof.
-    induction w as [t|t|t|t|v|n|t|t|k|k|a b|l IH|] using W_ind'; intros s s' H.
+    induction w as [t|t|t|t|v|n|t|t|k|k|pk|l IH|] using W_ind'; intros s s' H.
     1-11: cbn [W.run] in H.
     1-4: injection H as <-; apply extends_emit.
     - injection H as <-. repeat split; cbn; try (exists []; now rewrite app_nil_r); eexists; reflexivity.
